@@ -12,9 +12,12 @@ package route
 //@ define isTreeChild(t Tree) bool = dyn(t) == type(*staticTree) || dyn(t) == type(*regexTree) ||
 //@     dyn(t) == type(*placeholderTree) || dyn(t) == type(*matchAllTree)
 
+//@ define isTree(t Tree) bool = dyn(t) == type(*baseTree) || isTreeChild(t)
+
 //@ define nodeOK(n *baseTree) bool =
-//@     (forall k int :: 0 <= k && k < len(n.subtrees) ==> isTreeChild(n.subtrees[k])) &&
-//@     (forall k int :: 0 <= k && k < len(n.leaves) ==> n.leaves[k] != nil)
+//@     (forall k int :: 0 <= k && k < len(n.subtrees) ==> isTreeChild(n.subtrees[k]) && nodeOf(n.subtrees[k]).segment != nil) &&
+//@     (forall k int :: 0 <= k && k < len(n.leaves) ==> n.leaves[k] != nil) &&
+//@     (n.parent == nil || (isTree(n.parent) && n.segment != nil))
 
 //@ define leafOK(l *baseLeaf) bool = l.handler != nil && l.route != nil && l.segment != nil && l.parent != nil
 
@@ -194,3 +197,90 @@ package route
 //@   modifies nothing
 //@   ensures[C09] result == hmMatch(m, header)
 //@   loop 0 invariant[C09] forall name string :: visited(name) ==> has(m.matches, name) && hdrGet(header, name) != "" && reMatch(m.matches[name], hdrGet(header, name))
+
+// ---------------------------------------------------------------------------
+// C08: registration
+// ---------------------------------------------------------------------------
+
+//@ uninterpreted countGroups(pattern string) int
+
+//@ func NewTree
+//@   props C08
+//@   ensures dyn(result) == type(*baseTree) && fresh(result)
+//@   ensures len(result.(*baseTree).subtrees) == 0 && len(result.(*baseTree).leaves) == 0 && result.(*baseTree).parent == nil
+
+//@ func getParentBindSet
+//@   props C08
+//@   requires treeWF() && (parent == nil || isTree(parent))
+//@   ensures result != nil && fresh(result)
+//@   loop 0 invariant treeWF() && (ancestor == nil || isTree(ancestor)) && bindSet != nil && fresh(bindSet)
+
+// nonCapturing is a pure function of its argument (its result is what the regexp facts below speak about).
+//@ func nonCapturing
+//@   props C08 C02
+//@   pure
+//@   loop 0 invariant 0 <= i && i <= len(expr)
+
+//@ func constructMatchStyleRegex
+//@   props C08 C02
+//@   requires s != nil
+//@   ensures result2 == nil ==> result0 != nil && reGroups(result0) == len(result1)
+//@   ensures result2 != nil ==> result0 == nil
+//@   loop 0 invariant fresh(binds) && buf != nil && fresh(buf) && countGroups(buf.content) == len(binds)
+//@   loop 1 invariant fresh(binds) && buf != nil && fresh(buf) && countGroups(buf.content) == len(binds)
+
+//@ func newLeaf
+//@   props C08
+//@   requires treeWF() && isTree(parent) && r != nil && s != nil && h != nil
+//@   modifies Segment.str, Segment.strOnce.fired
+//@   ensures treeWF()
+//@   ensures result1 == nil ==> result0 != nil && fresh(result0)
+//@   ensures result1 == nil ==> leafBase(result0).parent == parent && leafBase(result0).segment == s && leafBase(result0).route == r && leafBase(result0).headerMatcher == nil
+//@   ensures result1 != nil ==> result0 == nil
+
+//@ func newTree
+//@   props C08
+//@   requires treeWF() && isTree(parent) && s != nil
+//@   ensures treeWF()
+//@   ensures result1 == nil ==> isTreeChild(result0) && fresh(result0)
+//@   ensures result1 == nil ==> nodeOf(result0).parent == parent && nodeOf(result0).segment == s && len(nodeOf(result0).subtrees) == 0 && len(nodeOf(result0).leaves) == 0
+//@   ensures result1 != nil ==> result0 == nil
+//@   loop 0 invariant treeWF() && (ancestor == nil || isTree(ancestor))
+
+//@ define routeWF(r *Route) bool = r != nil && len(r.Segments) >= 1 && (forall k int :: 0 <= k && k < len(r.Segments) ==> r.Segments[k] != nil)
+
+//@ func addLeaf
+//@   props C08
+//@   requires treeWF() && isTree(t) && r != nil && s != nil && h != nil
+//@   modifies baseTree.leaves, elems(type([]Leaf)), Segment.str, Segment.strOnce.fired, Route.str, Route.strOnce.fired
+//@   ensures treeWF()
+//@   ensures result1 == nil ==> result0 != nil
+//@   ensures result1 != nil ==> result0 == nil
+//@   loop 0 invariant treeWF()
+//@   loop 1 invariant treeWF() && 0 <= i && i <= len(leaves)
+
+//@ func addSubtree
+//@   props C08
+//@   requires treeWF() && isTree(t) && routeWF(r) && h != nil && 0 <= next && next + 1 < len(r.Segments)
+//@   modifies baseTree.leaves, baseTree.subtrees, elems(type([]Leaf)), elems(type([]Tree)), Segment.str, Segment.strOnce.fired, Route.str, Route.strOnce.fired
+//@   ensures treeWF()
+//@   ensures result1 == nil ==> result0 != nil
+//@   ensures result1 != nil ==> result0 == nil
+//@   loop 0 invariant treeWF()
+//@   loop 1 invariant treeWF() && 0 <= i && i <= len(subtrees)
+
+//@ func addNextSegment
+//@   props C08
+//@   requires treeWF() && isTree(t) && routeWF(r) && h != nil && 0 <= next && next < len(r.Segments)
+//@   modifies baseTree.leaves, baseTree.subtrees, elems(type([]Leaf)), elems(type([]Tree)), Segment.str, Segment.strOnce.fired, Route.str, Route.strOnce.fired
+//@   ensures treeWF()
+//@   ensures result1 == nil ==> result0 != nil
+//@   ensures result1 != nil ==> result0 == nil
+
+//@ func AddRoute
+//@   props C08
+//@   requires treeWF() && isTree(t) && h != nil && (r == nil || len(r.Segments) == 0 || routeWF(r))
+//@   modifies baseTree.leaves, baseTree.subtrees, elems(type([]Leaf)), elems(type([]Tree)), Segment.str, Segment.strOnce.fired, Route.str, Route.strOnce.fired
+//@   ensures treeWF()
+//@   ensures result1 == nil ==> result0 != nil
+//@   ensures result1 != nil ==> result0 == nil
